@@ -185,6 +185,12 @@ def run_process_level(prop, tier, seed, R, scripts_override=None):
                         for e in proc.run_script(exe, r):
                             f.write(json.dumps(e) + "\n")
                         n_runs += 1
+                    if prop == "C16" and not any(c.get("nonl") for c in s):
+                        # the same script written to stdin in ONE piece (nobody waits for the answers; quit or end of input may
+                        # already be in the engine's read buffer while earlier commands are being answered)
+                        for e in proc.run_script_batch(exe, s):
+                            f.write(json.dumps(e) + "\n")
+                        n_runs += 1
             return tp, n_runs, len(scripts), vlib.validate_trace("UciTrace", "UciTrace.cfg", tp, lambda e: e["ev"] == "start", timeout=3000, xmx="3g")
         n_shards = T["procs"] if scripts_override is None else 1
         total_runs = total_scripts = events = 0
